@@ -1019,7 +1019,8 @@ invocation raised. The events / handler invocations seen are prefixes of the pro
 sequence (`C12_dispatch_order`) of the full run; the control skeleton so far is a prefix of the events' expansion, i.e. every
 parameter update made sits immediately after its batch-start emission (updates only inside batch windows) and the version
 left behind is the number of updates made; the flag left behind is the initial flag or-ed with the requests made before
-(so a later call is silent iff a stop had been requested, `C12_stopped_run_is_noop`). A run started stopped never raises. -/
+(so a later call is silent iff a stop had been requested, `C12_stopped_run_is_noop`). A run started stopped never raises.
+The last event emitted is the one whose dispatch was interrupted (every invocation is for the event emitted last). -/
 theorem C12_exception_trace (c : Cfg) (A : Asg) (mid : Int → Nat → Bool) (stop₀ : Bool) (ab : Abort)
     (h : fitAsg c A mid stop₀ = .error ab) :
     ∃ pre' i ev seen ver post,
@@ -1032,7 +1033,8 @@ theorem C12_exception_trace (c : Cfg) (A : Asg) (mid : Int → Nat → Bool) (st
       skeleton ab.log <+: (events (fit c (A.req mid) stop₀).1).flatMap (expandEv c) ∧
       ab.stop = (stop₀ || ab.log.any (A.req mid).at) ∧
       ab.ver = ab.log.countP Entry.isOpt ∧
-      stop₀ = false := by
+      stop₀ = false ∧
+      (events ab.log).getLast? = some ev := by
   unfold fitAsg at h
   simp only at h
   cases hc : cutAtRaise A.raises (fit c (A.req mid) stop₀).1 with
@@ -1049,7 +1051,7 @@ theorem C12_exception_trace (c : Cfg) (A : Asg) (mid : Int → Nat → Bool) (st
     have hver := (C12_param_window c (A.req mid) stop₀).1 pre' i ev seen ver post hfull
     have hst : abortState (A.req mid) stop₀ pre = (seen || (A.req mid).cb i ev, ver) := by
       simp [abortState, e1]
-    refine ⟨pre', i, ev, seen, ver, post, by rw [hlog, e1], by rw [hlog, e2], by rw [herr, e3], e4, ?_, ?_, ?_, ?_, ?_, ?_⟩
+    refine ⟨pre', i, ev, seen, ver, post, by rw [hlog, e1], by rw [hlog, e2], by rw [herr, e3], e4, ?_, ?_, ?_, ?_, ?_, ?_, ?_⟩
     · rw [hlog, e2, events_append]; exact List.prefix_append _ _
     · rw [← C12_dispatch_order, hlog, e2, calls_append]; exact List.prefix_append _ _
     · rw [← (C12_param_window c (A.req mid) stop₀).2.1, hlog, e2, skeleton_append]; exact List.prefix_append _ _
@@ -1064,6 +1066,58 @@ theorem C12_exception_trace (c : Cfg) (A : Asg) (mid : Int → Nat → Bool) (st
     · cases stop₀
       · rfl
       · rw [fit_stopped] at hfull; simp at hfull
+    · have hok := fit_callsOK c (A.req mid) stop₀
+      rw [hfull] at hok
+      have hcur := callsOK_split hok
+      rw [curAfter_none] at hcur
+      rw [hlog, e1, events_append]
+      simpa using hcur
+
+/-- list fact: an element that occurs once in `A ++ B`, as its last element, does not occur in `A` unless `A` ends with it -/
+theorem not_mem_of_last_once {α : Type} [DecidableEq α] {A B : List α} {x y : α} (hc : (A ++ B).count x = 1)
+    (hl : (A ++ B).getLast? = some x) (hA : A.getLast? = some y) (hxy : y ≠ x) : x ∉ A := by
+  intro hx
+  cases B with
+  | nil =>
+    rw [List.append_nil, hA] at hl
+    exact hxy (Option.some.inj hl)
+  | cons b B =>
+    have hB : x ∈ b :: B := by
+      rw [List.getLast?_append] at hl
+      cases hb : (b :: B).getLast? with
+      | none => simp at hb
+      | some z =>
+        rw [hb] at hl
+        have hz : z = x := by simpa using hl
+        exact List.mem_of_getLast? (hz ▸ hb)
+    have h1 : 1 ≤ A.count x := List.count_pos_iff.mpr hx
+    have h2 : 1 ≤ (b :: B).count x := List.count_pos_iff.mpr hB
+    rw [List.count_append] at hc
+    omega
+
+/-- **C12.14b** When the exception is raised while an event other than train-end is dispatched, `on_train_end` has NOT been
+dispatched when it leaves `fit` (and, the trace being a prefix ending in the interrupted event, neither has anything after that
+event: the current epoch's end event is not delivered either unless it is the interrupted one). -/
+theorem C12_exception_no_train_end (c : Cfg) (A : Asg) (mid : Int → Nat → Bool) (stop₀ : Bool) (ab : Abort)
+    (h : fitAsg c A mid stop₀ = .error ab) (hte : ∀ i, A.raises i .trainEnd = none) :
+    Event.trainEnd ∉ events ab.log := by
+  obtain ⟨pre', i, ev, seen, ver, post, e1, e2, e3, _, _, _, _, _, _, hs, hlast⟩ := C12_exception_trace c A mid stop₀ ab h
+  subst hs
+  have hev : ev ≠ .trainEnd := by
+    intro he; rw [he, hte i] at e3; cases e3
+  have hfull : events (fit c (A.req mid) false).1 = events ab.log ++ events post := by rw [e2, events_append]
+  have honce : (events (fit c (A.req mid) false).1).count .trainEnd = 1 ∧
+      (events (fit c (A.req mid) false).1).getLast? = some .trainEnd := by
+    by_cases hnb : 1 ≤ c.numBatches
+    · have := C12_train_events_once c (A.req mid) false hnb
+      exact ⟨by simpa using this.2.1, (this.2.2 rfl).2⟩
+    · have h0 : c.numBatches = 0 := by omega
+      obtain ⟨⟨m, _, hm⟩, _, hc, _⟩ := C12_protocol_no_batches c (A.req mid) false h0
+      refine ⟨by simpa using hc, ?_⟩
+      simp only [Bool.false_eq_true, if_false] at hm
+      rw [hm, ← List.cons_append, List.getLast?_append]; simp
+  rw [hfull] at honce
+  exact not_mem_of_last_once honce.1 honce.2 hlast hev
 
 /-- callback 1 assigns a numpy truth value without a `try` at the end of batch (1,0) of a two-batch epoch, after callback 0
 has requested a stop at the start of that batch: the exception leaves `fit` with the trace `ts, es 1, bs 1 0, be 1 0` (no
